@@ -52,7 +52,9 @@ CellVal(kind, r, c) ==
      [] kind = "big" -> Num(DecNorm(100 + 10 * r + c, 17))                       \* 1.11e19 .. 1.35e19
      [] kind = "str" -> StrVal(r, c)
      [] kind = "mix" -> IF (r + c) % 2 = 0 THEN NumVal(r, c) ELSE StrVal(r, c)
-     [] kind = "formula" -> Str(Pick(<<F_H2O, F_CH3OH_pad, F_PtCl12, F_CO>>, r + c))
+     \* formulas repeat down a column: the same text and the same text padded differently
+     [] kind = "formula" -> Str(IF c % 2 = 1 THEN <<F_CO, F_CO_pad, F_CO>>[r]
+                                ELSE <<F_H2O, F_H2O, F_CH3OH_pad>>[r])
      [] kind = "statmech" -> Str(Pick(<<T_electronic, T_constant, V_IdealGas, V_placeholder_pad, V_Harmonic>>, r + c))
      [] kind = "trans" -> Str(Pick(<<T_FreeTrans, T_EmptyMode>>, r + c))
      [] kind = "vib" -> Str(Pick(<<T_HarmonicVib, T_QRRHOVib, T_EinsteinVib, T_DebyeVib, T_emptymode>>, r + c))
@@ -60,8 +62,7 @@ CellVal(kind, r, c) ==
      [] kind = "elec" -> Str(Pick(<<T_GroundStateElec, T_LSR, T_EmptyMode>>, r + c))
      [] kind = "nucl" -> Str(Pick(<<T_EmptyNucl, T_EmptyMode>>, r + c))
 
-LayoutOK(s) == /\ \A i \in 1..Len(s), j \in 1..Len(s) : i < j /\ s[i] = s[j] => Pool[s[i]].rep
-               /\ ~((\E i \in 1..Len(s) : s[i] = 7) /\ (\E i \in 1..Len(s) : s[i] \in {4, 5, 6}))
+LayoutOK(s) == \A i \in 1..Len(s), j \in 1..Len(s) : i < j /\ s[i] = s[j] => Pool[s[i]].rep
 Layouts(idx, lo, hi) == {s \in UNION {[1..k -> idx] : k \in lo..hi} : LayoutOK(s)}
 Patterns(nr, nc) == {p \in [1..nr -> [1..nc -> BOOLEAN]] : \E k \in 1..nc : p[nr][k]}
 Sheet(lay, nr, pat) ==
@@ -82,7 +83,9 @@ MCGroupSheets(g) ==
 GroupsOf(lays, rowCounts) == {G(l, nr, "all") : l \in lays, nr \in rowCounts}
 
 Wide == { <<1, 18, 20, 8, 8>>, <<8, 4, 8, 5, 8>>, <<15, 17, 16, 2, 3>>, <<10, 13, 10, 14, 10>>,
-          <<19, 21, 22, 23, 18>>, <<7, 12, 11, 9, 9>>, <<3, 18, 1, 6, 23>>, <<18, 19, 20, 3, 22>> }
+          <<19, 21, 22, 23, 18>>, <<7, 12, 11, 9, 9>>, <<3, 18, 1, 6, 23>>, <<18, 19, 20, 3, 22>>,
+          <<7, 4, 6, 1, 8>>, <<4, 7, 6, 5, 1>> }       \* formula with element.X right / left of it
+FormulaMix == {7, 4, 6}                \* formula, element.O (overrides O), element.Pt (adds Pt)
 Core == {18, 20, 3, 8, 10, 4}          \* the columns that interact most
 Core2 == Core \cup {5, 7, 13, 14, 19, 23}
 
@@ -92,6 +95,7 @@ QuickGroups(x) == GroupsOf(Layouts(1..24, 1, 2), {1, 2})
                   \cup GroupsOf(Layouts(Core, 3, 3), {2})
                   \cup GroupsOf(Layouts(Core, 2, 2), {3})
                   \cup {G(l, 3, "masks") : l \in Wide}
+                  \cup GroupsOf(Layouts(FormulaMix, 2, 3), {2}) \cup GroupsOf(Layouts(FormulaMix, 2, 2), {3})
 ThoroughGroups(x) == QuickGroups(x) \cup GroupsOf(Layouts(Core2, 3, 3), {2})
                      \cup GroupsOf(Layouts(Core, 4, 4), {2})
 \* the sheets the thorough tier replays into the code (a subset of ThoroughGroups)
